@@ -292,14 +292,41 @@ def model_search(mdrv, c, r, seed, n, pol=(0, 1)):
 
 
 def witness_defs():
-    """programs / grants of the witnesses as they appear in Dict/MicroFullWitness.v"""
+    """programs / grants of the witnesses as they appear in Dict/MicroFullWitness.v: name -> (grants, tasks or None)"""
     if not os.path.exists(WITNESS_V):
         return {}
     src = open(WITNESS_V).read()
     d = {}
-    for m in re.finditer(r"Definition\s+(wit_[a-z_]+)_grants\s*:\s*list nat\s*:=\s*\[([0-9; \n]*)\]", src):
-        d[m.group(1)] = [int(x) for x in m.group(2).replace("\n", " ").split(";") if x.strip()]
+    for m in re.finditer(r"Definition\s+(wit_[a-z_0-9]+)_grants\s*:\s*list nat\s*:=\s*\[([0-9; \n]*)\]", src):
+        d[m.group(1)] = [[int(x) for x in m.group(2).replace("\n", " ").split(";") if x.strip()], None]
+    for m in re.finditer(r"Definition\s+(wit_[a-z_0-9]+)_progs\s*:\s*list \(list fop\)\s*:=\s*\[(.*?)\]\.", src, re.S):
+        tasks = []
+        for inner in re.findall(r"\[([^\[\]]*)\]", m.group(2)):
+            l = []
+            for o in inner.split(";"):
+                w = o.split()
+                if not w:
+                    continue
+                if w[0] in ("FPia", "FPut"):
+                    l.append(("a" if w[0] == "FPia" else "p", int(w[1]), int(w[2])))
+                else:
+                    l.append(("g" if w[0] == "FGet" else "x", int(w[1]), 0))
+            tasks.append(l)
+        for k in d:
+            if k == m.group(1) or k.startswith(m.group(1) + "_"):
+                d[k][1] = tasks
     return d
+
+
+def witness_matches(wdefs, c, real_grants):
+    w = c.get("witness")
+    if w is None:
+        return True
+    if w not in wdefs:
+        return False
+    g, tasks = wdefs[w]
+    mine = [[(op, k, v if op in "ap" else 0) for (op, k, v) in l] for l in c["tasks"]]
+    return g == real_grants and tasks == mine
 
 
 # ------------------------------------------------------------------------------------------------------------ entry point
@@ -355,7 +382,7 @@ def run_microfull(ctx, quick):
             exp = c.get("expect", {})
             w = c.get("witness")
             okw = (exp.get("linearizable", True) == (why is None)) and exp.get("signature", cls) == cls and \
-                  (w is None or wdefs.get(w) == [int(a.split()[1]) for a in r["arr"]])
+                  witness_matches(wdefs, c, [int(a.split()[1]) for a in r["arr"]])
             if okw:
                 wit_ok.append(c["file"])
             else:
